@@ -206,6 +206,15 @@ fn run(input: RunInput) -> ScenFuture {
                 }
                 if connected {
                     model.insert(d.peer_id);
+                } else {
+                    // (a dial that was postponed - legitimately, see above - may be under way right
+                    // now and complete after the entry has lost its address: the model follows the
+                    // listener once that dial has had time to resolve; thorough-tier seed
+                    // 17417238847506639808)
+                    sleep_ms(1_600 + settle_ms).await;
+                    if l.net.peers().contains(&d.peer_id) {
+                        model.insert(d.peer_id);
+                    }
                 }
             } else if choice < 82 {
                 // disconnect (frees a slot), by either side; in some runs while a request of that
